@@ -317,10 +317,19 @@ func (e *Engine) appendCore(f *frame, s, el Val, pos token.Pos) Val {
 	if elLen.IsConst() && elLen.V == 0 {
 		return s
 	}
+	// under path splitting "fits in the capacity" is explored one side at a time
+	if want, ok := e.splitOn(f, fits); ok {
+		e.assume(X.Eq(fits, X.BoolConst(want)))
+		if want {
+			fits = X.True
+		} else {
+			fits = X.False
+		}
+	}
 	fresh := e.newRef(f.st)
 	newCap := X.Fresh("appcap", IntSort)
 	e.assume(X.And(X.Ule(newLen, newCap), X.Ule(newCap, X.Const(1<<41, 64))))
-	if e.frameOn && e.specDepth == 0 && !s.ref().IsConst() {
+	if e.frameOn && e.specDepth == 0 && !s.ref().IsConst() && !fits.IsFalse() {
 		l := frameLoc{kind: "range", ref: s.ref(), keyPfx: "arr:" + typeKey(elem) + "/", lo: X.BVAdd(s.off(), s.ln()), hi: X.BVAdd(s.off(), newLen), text: "append"}
 		e.oblige("frame", "append in place", X.Or(X.Not(fits), e.locAllowed(l)), pos)
 	}
@@ -338,9 +347,9 @@ func (e *Engine) appendCore(f *frame, s, el Val, pos token.Pos) Val {
 		// fresh array: old elements then the appended ones
 		fr := X.Lambda(j, X.Ite(X.Ult(j, s.ln()), X.Select(sArr, X.BVAdd(s.off(), j)), X.Select(eArr, X.BVAdd(elOff, X.BVSub(j, s.ln())))))
 		// in place: the appended elements after the current length
-		lo := X.BVAdd(s.off(), s.ln())
 		j2 := X.BVar("aj", IntSort)
-		ip := X.Lambda(j2, X.Ite(X.And(X.Ule(lo, j2), X.Ult(j2, X.BVAdd(s.off(), newLen))), X.Select(eArr, X.BVAdd(elOff, X.BVSub(j2, lo))), X.Select(sArr, j2)))
+		rel := X.BVSub(j2, s.off()) // position relative to the slice start: index sums cancel
+		ip := X.Lambda(j2, X.Ite(X.And(X.Ule(s.ln(), rel), X.Ult(rel, newLen)), X.Select(eArr, X.BVAdd(elOff, X.BVSub(rel, s.ln()))), X.Select(sArr, j2)))
 		h = X.Store(h, s.ref(), X.Ite(fits, ip, sArr))
 		h = X.Store(h, fresh, fr)
 		e.setHeap(f.st, key, h)
